@@ -79,7 +79,18 @@ def main():
     info["pkg"] = os.path.abspath(pyab_experiment.__file__)
     slots = {}
 
+    def expand(v):
+        # {"$pow10": n} stands for 10**n (too long to travel as a JSON number)
+        if isinstance(v, dict):
+            if set(v) == {"$pow10"}:
+                return 10 ** int(v["$pow10"])
+            return {k: expand(x) for k, x in v.items()}
+        if isinstance(v, list):
+            return [expand(x) for x in v]
+        return v
+
     def outcome(fn, *a, **kw):
+        kw = expand(kw)
         try:
             v = fn(*a, **kw)
         except Exception as e:  # noqa: BLE001
